@@ -78,6 +78,11 @@ func newX(sc string, src *choice.Source) *X {
 
 // Logf appends an event to the run's log (hashed always, kept when KeepLog).
 func (x *X) Logf(format string, a ...any) {
+	if simrt.Dying() {
+		// teardown releases every parked task at once; what their deferred code logs
+		// is unordered and not part of the run
+		return
+	}
 	s := fmt.Sprintf(format, a...)
 	x.mu.Lock()
 	h := x.logHash
@@ -107,7 +112,7 @@ func (x *X) Want(p string) bool { return x.Prop == "" || x.Prop == p }
 
 // Violate records an oracle failure.
 func (x *X) Violate(prop, fingerprint, format string, a ...any) {
-	if !x.Want(prop) {
+	if !x.Want(prop) || simrt.Dying() {
 		return
 	}
 	msg := fmt.Sprintf(format, a...)
@@ -222,6 +227,9 @@ func (x *X) Settle(onErr func(*simrt.SchedError)) bool {
 	return true
 }
 
+// waitQuiet blocks until every goroutine of the bubble is durably blocked.
+func waitQuiet() { synctest.Wait() }
+
 // TaskSleep is time.Sleep for harness task code: after waking, the task
 // yields so that everything it does next is ordered by the scheduler.
 func TaskSleep(d time.Duration) {
@@ -289,6 +297,13 @@ func execRun(t *testing.T, sc *Scenario, x *X) (out runOutcome) {
 		x.simStart = time.Now()
 		defer func() {
 			x.SimTime = time.Since(x.simStart)
+			// a panic in scenario (root) code is harness trouble, not a violation; it must
+			// be caught here because the bubble runs on its own goroutine
+			if r := recover(); r != nil {
+				buf := make([]byte, 16<<10)
+				n := runtime.Stack(buf, false)
+				out.HarnessErr = fmt.Sprint(r) + "\n" + string(buf[:n])
+			}
 		}()
 		sc.Run(x)
 	})
